@@ -109,7 +109,9 @@ class CryptoManager:
             frame = raw(packet[self.base_class:])
             auth = frame[:len(frame) - len(packet.data) - len(packet.mic)]
         else:
-            auth = raw(packet[self.base_class:])[:-self.M]
+            # Integrity-only levels: header and payload are authenticated, the MIC is not.
+            frame = raw(packet[self.base_class:])
+            auth = frame[:len(frame) - len(packet.mic)]
         return auth
 
     def extractCiphertextPayload(self, packet):
@@ -161,8 +163,12 @@ class CryptoManager:
         # generate the AES-CCM parameters
         self.auth = self.generateAuth(packet)
 
-        # Extract plaintext
-        plaintext = packet.data[:-self.M] if len(packet.mic) == 0 and self.patched else packet.data
+        # Extract plaintext (at the integrity-only levels nothing is encrypted: the payload
+        # is part of the authenticated data and stays in clear)
+        if self.encryption:
+            plaintext = packet.data[:-self.M] if len(packet.mic) == 0 and self.patched else packet.data
+        else:
+            plaintext = b""
         # Encrypt and generate MIC
         cipher = AES.new(self.key, AES.MODE_CCM, nonce=self.nonce, mac_len=self.M)
         cipher.update(self.auth)
@@ -170,7 +176,8 @@ class CryptoManager:
         ciphertext = cipher.encrypt(plaintext)
 
         mic = cipher.digest()
-        packet.data = ciphertext
+        if self.encryption:
+            packet.data = ciphertext
         packet.mic = mic
 
         # Restore security level if patched
@@ -212,7 +219,8 @@ class CryptoManager:
         plaintext = cipher.decrypt(ciphertext)
         try:
             cipher.verify(mic)
-            packet.data = plaintext
+            if self.encryption:
+                packet.data = plaintext
             packet.mic = self.generateMIC(packet)
             # Reverse patching if needed
             if self.patched:
